@@ -70,11 +70,14 @@ def _copy_widget_options(options):
   if not options:
     return options
   try:
-    options = json.loads(options)
+    parsed = json.loads(options)
   except ValueError:
     # widgetOptions are not always a valid json value (especially in tests)
     return options
-  return json.dumps({k: v for k, v in options.items() if k != "rulesOptions"})
+  if not isinstance(parsed, dict):
+    # Valid json, but not an object: there are no rulesOptions to omit.
+    return options
+  return json.dumps({k: v for k, v in parsed.items() if k != "rulesOptions"})
 
 
 def encode_summary_table_name(source_table_id, groupby_col_ids):
